@@ -40,6 +40,45 @@ var places = []place{
 	{"importing-module-func", "x := import(\"outer\")\n", map[string]string{"outer": "f := func(hostvar) {\n\treturn import(\"m\")\n}\nexport f(1)\n"}, false, "int:1"},
 }
 
+// the product {importer = main | a module} x {where hostvar lives} x {where the import expression stands}
+func init() {
+	type combo struct{ v, i string }
+	combos := []combo{{"top", "top"}, {"top", "block"}, {"top", "func"}, {"top", "nested-func"},
+		{"func-local", "func"}, {"func-local", "nested-func"}, {"func-param", "func"}, {"func-param", "nested-func"}, {"block-local", "block"}}
+	for _, c := range combos {
+		params, args, locals, top, blk := "", "", "", "", ""
+		switch c.v {
+		case "top":
+			top = "hostvar := 1\n"
+		case "func-local":
+			locals = "\thostvar := 1\n"
+		case "func-param":
+			params, args = "hostvar", "1"
+		case "block-local":
+			blk = "\thostvar := 1\n"
+		}
+		body := top
+		switch c.i {
+		case "top":
+			body += "y := import(\"m\")\n"
+		case "block":
+			body += "y := 0\nif true {\n" + blk + "\ty = import(\"m\")\n}\n"
+		case "func":
+			body += "f := func(" + params + ") {\n" + locals + "\treturn import(\"m\")\n}\ny := f(" + args + ")\n"
+		case "nested-func":
+			use := "import(\"m\")"
+			if c.v != "top" {
+				use = "[import(\"m\"), hostvar][0]" // hostvar becomes a captured variable of the inner function
+			}
+			body += "g := func(" + params + ") {\n" + locals + "\treturn func() {\n\t\treturn " + use + "\n\t}\n}\ny := g(" + args + ")()\n"
+		}
+		id := "var=" + c.v + "/import-in=" + c.i
+		places = append(places,
+			place{"main/" + id, body + "x := y\n", nil, false, "int:1"},
+			place{"module/" + id, "x := import(\"outer\")\n", map[string]string{"outer": body + "export y\n"}, false, "int:1"})
+	}
+}
+
 // module bodies that refer to the importer's variable
 var refForms = []struct{ id, body string }{
 	{"export-var", "export hostvar\n"},
